@@ -349,6 +349,14 @@ func (r Req) FollowPacket(f string) []byte {
 		return SStr([]byte{66}, "bad-mic")
 	case f == "o": // a message no part of the auth code expects (SSH_MSG_UNIMPLEMENTED)
 		return U32([]byte{3}, 7)
+	case strings.HasPrefix(f, "ij"): // the right number of answers, then junk
+		var n int
+		fmt.Sscan(f[2:], &n)
+		p := U32([]byte{61}, uint32(n))
+		for i := 0; i < n; i++ {
+			p = SStr(p, "ans")
+		}
+		return append(p, 0x2a)
 	case strings.HasPrefix(f, "i"):
 		var n int
 		fmt.Sscan(f[1:], &n)
